@@ -26,5 +26,6 @@ From Chess3 Require Export Model.C05Streams.
 From Chess3 Require Export Spec.C05Judge.
 From Chess3 Require Export Model.Uci Spec.UciSpec.
 From Chess3 Require Export Model.Vector Model.EvalU Spec.TunerSpec.
+From Chess3 Require Export Model.Search Model.SearchStreams Spec.SearchModelJudge.  (* closed search model: C06/C07/C08 *)
 
 Extraction Language OCaml.
